@@ -57,6 +57,8 @@ def gen_case(rnd, tier, index):
     spec = wbgen.generate(rnd, knobs)
     if rnd.random() < 0.04:
         wbgen.add_big_range_gadget(rnd, spec)     # a range of > 1000 cells, nearly all blank
+    if rnd.random() < 0.06:
+        wbgen.add_lookup_gadget(rnd, spec)
     cfg = c01.draw_cfg(rnd, spec, tier)
     if cfg.get('origin') != 'xlsx' and rnd.random() < 0.15:
         wbgen.add_table_gadget(rnd, spec)     # structured references
@@ -104,7 +106,7 @@ def gen_trim_case(rnd, tier, index):
     for _ in range(rnd.choice((2, 4, 8))):
         if consts and rnd.random() < 0.5:
             a = rnd.choice(consts)
-            v = c01.draw_write(rnd, cur.get(a, dag.cell[a].get('v')))
+            v = c01.draw_write(rnd, cur.get(a, dag.cell[a].get('v')), dag.cell[a].get('w'))
             cur[a] = v
             extra.append({'op': 'set', 'a': a, 'v': v, 'kept': True})
         else:
